@@ -217,6 +217,55 @@ def install(ex):
         return memo[key][0]
     S["hash/crc32.ChecksumIEEE"] = crc32_ieee
 
+    # ---------------------------------------------------------------- a few package strings/bytes predicates (first argument may
+    # have symbolic content but needs a concrete length; the pattern must be concrete)
+    def _sym_chars(ex, st, s):
+        if not isinstance(s.len, int):
+            raise Unsupported("strings.* stub on a string of symbolic length")
+        if s.ptr is None:
+            return []
+        arr = ex.load(st, s.ptr).arr
+        return [ex.select(st, arr, ex.add(s.off, i)) for i in range(s.len)]
+
+    def _match_at(ex, chars, i, pat):
+        return band(*[ex.A.cmp("==", chars[i + j], pat[j]) for j in range(len(pat))])
+
+    def s_index_byte(ex, st, args, ins):
+        chars = _sym_chars(ex, st, args[0])
+        c = args[1]
+        e = -1
+        for i in range(len(chars) - 1, -1, -1):
+            e = ite(ex.A.cmp("==", chars[i], c), i, e, ex.A.mk)
+        return e
+
+    def s_contains(ex, st, args, ins):
+        chars = _sym_chars(ex, st, args[0])
+        pat = ex.str_bytes(st, args[1])
+        if pat is None:
+            raise Unsupported("strings.Contains with symbolic pattern")
+        return bor(*[_match_at(ex, chars, i, pat) for i in range(0, len(chars) - len(pat) + 1)]) if len(pat) <= len(chars) else False
+
+    def s_has_prefix(ex, st, args, ins):
+        chars = _sym_chars(ex, st, args[0])
+        pat = ex.str_bytes(st, args[1])
+        if pat is None:
+            raise Unsupported("strings.HasPrefix with symbolic prefix")
+        return _match_at(ex, chars, 0, pat) if len(pat) <= len(chars) else False
+
+    def s_has_suffix(ex, st, args, ins):
+        chars = _sym_chars(ex, st, args[0])
+        pat = ex.str_bytes(st, args[1])
+        if pat is None:
+            raise Unsupported("strings.HasSuffix with symbolic suffix")
+        return _match_at(ex, chars, len(chars) - len(pat), pat) if len(pat) <= len(chars) else False
+    S["strings.IndexByte"] = s_index_byte
+    S["strings.Contains"] = s_contains
+    S["strings.HasPrefix"] = s_has_prefix
+    S["strings.HasSuffix"] = s_has_suffix
+    S["strings.ContainsRune"] = lambda ex, st, args, ins: ex.A.cmp(">=", s_index_byte(ex, st, args, ins), 0)
+    S["strings.ContainsAny"] = lambda ex, st, args, ins: bor(*[ex.A.cmp(">=", s_index_byte(ex, st, [args[0], ch], ins), 0) for ch in (ex.str_bytes(st, args[1]) or b"")])
+    S["bytes.IndexByte"] = s_index_byte
+
     # ---------------------------------------------------------------- sync.Pool
     # ghost "pools": tuple of (pool Ptr, value). Get may return nil or any stored element of that pool.
     def pool_put(ex, st, args, ins):
